@@ -1,6 +1,7 @@
 package props
 
 import (
+	"go/constant"
 	"strings"
 
 	"golang.org/x/tools/go/ssa"
@@ -39,20 +40,79 @@ func runC10(c *Ctx) {
 	fn := f.Function
 	b := ana.NewBuilder(c.P, fn)
 
+	// ---- the collection ranged over
+	var splitT *ana.Term
+	for _, ci := range ana.CallsTo(fn, "strings.Split") {
+		splitT = b.CallTermAt(ci)
+	}
+	sep := ""
+	if splitT == nil {
+		r.Undec("C10.exits.split", c.P.Pos(fn.Pos()), "no strings.Split call")
+	} else if bd, ok := ana.Match("call<strings.Split>(call<strings.TrimPrefix>(p0, $pre), $sep)", splitT); ok {
+		pre, _ := bd["$pre"].Str()
+		sep, _ = bd["$sep"].Str()
+		r.Check(pre == "m/" && sep == "/", "C10.exits.split", c.P.Pos(splitT.V.Pos()), "components = Split(TrimPrefix(s, %q), %q): exactly one optional master prefix is removed (TrimPrefix, not TrimLeft)", pre, sep)
+	} else {
+		r.Viol("C10.exits.split", c.P.Pos(splitT.V.Pos()), "components are not Split(TrimPrefix(s, \"m/\"), \"/\"): %s", splitT)
+	}
+	elem := "load(iaddr(" + termPat(splitT) + ", bin<+>(ind<+1>(-1), 1)))"
+
+	// ---- the key routine: the function that applies the regexp to one component — ParsePath itself, or a helper
+	// ParsePath calls with the component (analysed with its parameters bound to the arguments, so that the
+	// component and everything derived from it print the same in both)
+	type site struct {
+		fn *ssa.Function
+		b  *ana.Builder
+	}
+	reCallIn := func(s site) (ssa.CallInstruction, *ana.Term) {
+		for _, ci := range ana.Calls(s.fn) {
+			if strings.HasPrefix(ana.CalleeName(ci.Common()), "(*regexp.Regexp).") {
+				return ci, s.b.CallTermAt(ci)
+			}
+		}
+		return nil, nil
+	}
+	key := site{fn, b}
+	var keyCall *ana.Term
+	reCI, reT := reCallIn(key)
+	if reCI == nil {
+		for _, ci := range ana.Calls(fn) {
+			h := ana.StaticRepoCallee(ci.Common())
+			if h == nil || h.Blocks == nil {
+				continue
+			}
+			call := stripObj(b.CallTermAt(ci))
+			if call.Op != "call" || len(call.Args) != len(h.Params) {
+				continue
+			}
+			takesElem := false
+			for _, a := range call.Args {
+				if matches(elem, a) {
+					takesElem = true
+				}
+			}
+			if !takesElem {
+				continue
+			}
+			cand := site{h, boundBuilderP(c.P, call)}
+			if ci2, t2 := reCallIn(cand); ci2 != nil {
+				key, keyCall, reCI, reT = cand, call, ci2, t2
+				r.Fn(ana.ShortFunc(h))
+			}
+		}
+	}
+
 	// ---- regexp
 	var groupPats []string
 	pattern := ""
 	var reGlobal string
-	for _, ci := range ana.Calls(fn) {
-		name := ana.CalleeName(ci.Common())
-		if strings.HasPrefix(name, "(*regexp.Regexp).") {
-			t := b.CallTermAt(ci)
-			if bd, ok := ana.Match("call<*>(load(global<*>), ...)", t); ok {
-				_ = bd
-				reGlobal = t.Arg(0).Arg(0).Name
-			}
-			r.Check(name == "(*regexp.Regexp).FindStringSubmatch", "C10.regexp.method", c.ipos(ci), "regexp method used on a component is FindStringSubmatch (leftmost match + groups): %s", name)
+	anchored := false
+	if reCI != nil {
+		name := ana.CalleeName(reCI.Common())
+		if _, ok := ana.Match("call<*>(load(global<*>), ...)", reT); ok {
+			reGlobal = reT.Arg(0).Arg(0).Name
 		}
+		r.Check(name == "(*regexp.Regexp).FindStringSubmatch", "C10.regexp.method", c.ipos(reCI), "regexp method used on a component is FindStringSubmatch (leftmost match + groups): %s", name)
 	}
 	if reGlobal == "" {
 		r.Undec("C10.regexp.anchor", c.P.Pos(fn.Pos()), "ParsePath does not use a package-level *regexp.Regexp; rule template inapplicable")
@@ -67,6 +127,7 @@ func runC10(c *Ctx) {
 			r.Undec("C10.regexp.anchor", c.P.Pos(g.Pos()), "pattern is not a constant string")
 		} else {
 			pattern = p
+			anchored = relang.Anchored(p)
 			r.Check(writers == 1, "C10.regexp.single-writer", c.P.Pos(g.Pos()), "%s has %d writer(s); only its initialiser may write it", gname, writers)
 			res, err := relang.Equiv(p, `[0-9]+[H']?`)
 			if err != nil {
@@ -86,27 +147,31 @@ func runC10(c *Ctx) {
 			}
 		}
 	}
+	mt := "call<(*regexp.Regexp).FindStringSubmatch>(load(global<" + reGlobal + ">), " + elem + ")"
+	// FindStringSubmatch returns nil or 1+groups entries (3 here): "some match" has these spellings
+	matchedPats := []string{"bin<>=>(len(" + mt + "), 2)", "bin<>=>(len(" + mt + "), 1)", "bin<>=>(len(" + mt + "), 3)", "bin<==>(len(" + mt + "), 3)", "bin<!=>(" + mt + ", nil)"}
+	noMatchPats := []string{"bin<<>(len(" + mt + "), 2)", "bin<<>(len(" + mt + "), 1)", "bin<<>(len(" + mt + "), 3)", "bin<!=>(len(" + mt + "), 3)", "bin<==>(" + mt + ", nil)"}
+	// the match is the whole component: compared with it, or of the same length (a match is a substring of the component)
+	wholePats := []string{"bin<==>(load(iaddr(" + mt + ", 0)), " + elem + ")", "bin<==>(" + elem + ", load(iaddr(" + mt + ", 0)))", "bin<==>(len(load(iaddr(" + mt + ", 0))), len(" + elem + "))", "bin<==>(len(" + elem + "), len(load(iaddr(" + mt + ", 0))))"}
+	partPats := []string{"bin<!=>(load(iaddr(" + mt + ", 0)), " + elem + ")", "bin<!=>(" + elem + ", load(iaddr(" + mt + ", 0)))", "bin<!=>(len(load(iaddr(" + mt + ", 0))), len(" + elem + "))", "bin<!=>(len(" + elem + "), len(load(iaddr(" + mt + ", 0))))"}
+	// the numeric parse of capture group 1, written out or behind a parse helper (looked through by the matcher)
+	parseVal := "alt(conv<uint32>(ext#0(call<strconv.ParseUint>(load(iaddr(" + mt + ", 1)), _, _))), ext#0(call<*>(load(iaddr(" + mt + ", 1)))))"
+	parseErr := "alt(ext#1(call<strconv.ParseUint>(load(iaddr(" + mt + ", 1)), _, _)), ext#1(call<*>(load(iaddr(" + mt + ", 1)))))"
+	rejectPats := append(append(append([]string{}, noMatchPats...), partPats...), "bin<!=>("+parseErr+", nil)")
 
 	// ---- exits of ParsePath
-	// the collection ranged over
-	var splitT *ana.Term
-	for _, ci := range ana.CallsTo(fn, "strings.Split") {
-		splitT = b.CallTermAt(ci)
+	// errOK: the error is ErrInvalidPathFormat or the numeric parse error, possibly wrapped with %w
+	errOK := func(errT *ana.Term, needWrap bool) (bool, string) {
+		_, w1 := ana.Find("load(global<repo/pkg/bip32path.ErrInvalidPathFormat>)", errT)
+		pe, _ := ana.Find(parseErr, errT)
+		fmtS := ""
+		if bd, ok := ana.Match("call<fmt.Errorf>($f, _)", errT); ok {
+			fmtS, _ = bd["$f"].Str()
+		}
+		wrapped := strings.Contains(fmtS, "%w")
+		bare := errT.Is("load") || errT.Is("ext")
+		return (w1 != nil || pe != nil) && (wrapped || !needWrap && bare), fmtS
 	}
-	sep := ""
-	if splitT == nil {
-		r.Undec("C10.exits.split", c.P.Pos(fn.Pos()), "no strings.Split call")
-	} else if bd, ok := ana.Match("call<strings.Split>(call<strings.TrimPrefix>(p0, $pre), $sep)", splitT); ok {
-		pre, _ := bd["$pre"].Str()
-		sep, _ = bd["$sep"].Str()
-		r.Check(pre == "m/" && sep == "/", "C10.exits.split", c.P.Pos(splitT.V.Pos()), "components = Split(TrimPrefix(s, %q), %q): exactly one optional master prefix is removed (TrimPrefix, not TrimLeft)", pre, sep)
-	} else {
-		r.Viol("C10.exits.split", c.P.Pos(splitT.V.Pos()), "components are not Split(TrimPrefix(s, \"m/\"), \"/\"): %s", splitT)
-	}
-	elem := "load(iaddr(" + termPat(splitT) + ", bin<+>(ind<+1>(-1), 1)))"
-	matches := "call<(*regexp.Regexp).FindStringSubmatch>(load(global<" + reGlobal + ">), " + elem + ")"
-
-	// empty-path returns
 	emptyEdges := plainEdges(edgesMatching(b, `bin<==>(p0, "")`, `bin<==>(p0, "m")`))
 	nEmpty, nLoopRet, nErr := 0, 0, 0
 	for _, e := range ana.Exits(fn) {
@@ -129,21 +194,29 @@ func runC10(c *Ctx) {
 		}
 		nErr++
 		r.Check(valT.Is("nil"), "C10.exits.error-no-path", c.ipos(e.Instr), "error return carries a nil path")
-		// error wraps ErrInvalidPathFormat or the parse error with %w
-		_, w1 := ana.Find("load(global<repo/pkg/bip32path.ErrInvalidPathFormat>)", errT)
-		pe, _ := ana.Find("ext#1(call<*>(load(iaddr("+matches+", 1))))", errT)
-		fmtS := ""
-		if bd, ok := ana.Match("call<fmt.Errorf>($f, _)", errT); ok {
-			fmtS, _ = bd["$f"].Str()
+		ok, fmtS := errOK(errT, true)
+		if !ok && keyCall != nil {
+			// the key routine's error, wrapped here: each of its failing exits carries one of the two errors
+			if w, _ := ana.Find("ext#1("+termPat(keyCall)+")", errT); w != nil && strings.Contains(fmtS, "%w") {
+				ok = true
+				for _, ke := range ana.Exits(key.fn) {
+					if ke.Panic || len(ke.Results) != 2 {
+						continue
+					}
+					if ket := key.b.Of(ke.Results[1], ke.Instr); !ket.Is("nil") {
+						if good, _ := errOK(ket, false); !good {
+							ok = false
+						}
+					}
+				}
+			}
 		}
-		r.Check((w1 != nil || pe != nil) && strings.Contains(fmtS, "%w"), "C10.exits.error-wrap", c.ipos(e.Instr), "error wraps (%%w) ErrInvalidPathFormat or the numeric parse error: format %q", fmtS)
+		r.Check(ok, "C10.exits.error-wrap", c.ipos(e.Instr), "error wraps (%%w) ErrInvalidPathFormat or the numeric parse error: format %q", fmtS)
 	}
 	r.Floor("C10.floor.exits", nEmpty+nLoopRet+nErr, 2, "returns of ParsePath")
-	// closed list of reject reasons: an error return is reachable only through one of these edges
-	rejectEdges := plainEdges(edgesMatching(b,
-		"bin<<>(len("+matches+"), 2)", "bin<<=>(len("+matches+"), 1)",
-		"bin<!=>(load(iaddr("+matches+", 0)), "+elem+")", "bin<!=>("+elem+", load(iaddr("+matches+", 0)))",
-		"bin<!=>(ext#1(call<*>(load(iaddr("+matches+", 1)))), nil)"))
+	// closed list of reject reasons: an error return is reachable only through one of these edges (in ParsePath, or —
+	// for "the key routine failed" — in the key routine)
+	rejectEdges := c.rejectEdges(b, rejectPats...)
 	avoid := ana.ReachableAvoiding(fn, rejectEdges)
 	for _, e := range ana.Exits(fn) {
 		if e.Panic || b.Of(e.Results[1], e.Instr).Is("nil") {
@@ -152,8 +225,14 @@ func runC10(c *Ctx) {
 		r.Check(!avoid[e.Instr.Block()], "C10.exits.reject-closed", c.ipos(e.Instr), "error return reachable only through {no digit group matched, match is not the whole component, numeric parse error} (%d reject edges found); any other rejection refuses a string the statement accepts", len(rejectEdges))
 	}
 
-	// gates on the append
-	var parseCall *ssa.Call
+	// ---- value sites: where the index of one component is final — the appended value, or (key routine) its successful results
+	type vsite struct {
+		s   site
+		blk *ssa.BasicBlock
+		v   *ana.Term
+		at  ssa.Instruction
+	}
+	var sites []vsite
 	for _, ci := range ana.CallsTo(fn, "builtin.append") {
 		t := b.CallTermAt(ci)
 		elemT, _ := ana.Find("store(iaddr(self, 0), $v)", t.Arg(1))
@@ -162,48 +241,64 @@ func runC10(c *Ctx) {
 			continue
 		}
 		v := elemT.Arg(1)
-		hardPats := []string{"bin<>>(len(load(iaddr(" + matches + ", 2))), 0)", "bin<!=>(len(load(iaddr(" + matches + ", 2))), 0)", "bin<!=>(load(iaddr(" + matches + ", 2)), \"\")"}
-		softPats := []string{"bin<<=>(len(load(iaddr(" + matches + ", 2))), 0)", "bin<==>(len(load(iaddr(" + matches + ", 2))), 0)", "bin<==>(load(iaddr(" + matches + ", 2)), \"\")", "bin<<=>(len(" + matches + "), 2)"}
+		if keyCall != nil && matches("ext#0("+termPat(keyCall)+")", v) {
+			gk := plainEdges(edgesMatching(b, "bin<==>(ext#1("+termPat(keyCall)+"), nil)"))
+			r.Check(mustPass(fn, ci.Block(), gk), "C10.exits.gate-parse-error", c.ipos(ci), "append only after the key routine returned no error")
+			for _, ke := range ana.Exits(key.fn) {
+				if ke.Panic || len(ke.Results) != 2 || !key.b.Of(ke.Results[1], ke.Instr).Is("nil") {
+					continue
+				}
+				sites = append(sites, vsite{key, ke.Instr.Block(), key.b.Of(ke.Results[0], ke.Instr), ke.Instr})
+			}
+			continue
+		}
+		sites = append(sites, vsite{site{fn, b}, ci.Block(), v, ci})
+	}
+	var parseCall *ssa.Call
+	for _, vs := range sites {
+		sb, sfn, blk, v, pos := vs.s.b, vs.s.fn, vs.blk, vs.v, c.ipos(vs.at)
+		hardPats := []string{"bin<>>(len(load(iaddr(" + mt + ", 2))), 0)", "bin<!=>(len(load(iaddr(" + mt + ", 2))), 0)", "bin<!=>(load(iaddr(" + mt + ", 2)), \"\")"}
+		softPats := []string{"bin<<=>(len(load(iaddr(" + mt + ", 2))), 0)", "bin<==>(len(load(iaddr(" + mt + ", 2))), 0)", "bin<==>(load(iaddr(" + mt + ", 2)), \"\")", "bin<<=>(len(" + mt + "), 2)"}
 		// v + 2^31 equals v | 2^31 for v < 2^31, which the 31-bit parse (C10.base.bitsize31) guarantees
 		bd, ok := ana.Match("phi(alt(bin<|>($v, 2147483648), bin<+>($v, 2147483648)), $v)", v)
 		if !ok {
-			// one append per branch instead of one append of a merged value
+			// one site per branch instead of one merged value
 			if hb, isHard := ana.Match("alt(bin<|>($v, 2147483648), bin<+>($v, 2147483648))", v); isHard {
 				bd, ok = hb, true
-				r.Check(mustPass(fn, ci.Block(), plainEdges(edgesMatching(b, hardPats...))), "C10.exits.hardened-iff-marker", c.ipos(ci), "v|1<<31 is appended only when capture group 2 is non-empty")
-			} else if _, isParse := ana.Match("ext#0(call<*>(load(iaddr("+matches+", 1))))", v); isParse {
+				r.Check(mustPass(sfn, blk, plainEdges(edgesMatching(sb, hardPats...))), "C10.exits.hardened-iff-marker", pos, "v|1<<31 is produced only when capture group 2 is non-empty")
+			} else if _, isParse := ana.Match(parseVal, v); isParse {
 				bd, ok = ana.Binds{"$v": v}, true
-				r.Check(mustPass(fn, ci.Block(), plainEdges(edgesMatching(b, softPats...))), "C10.exits.unhardened-iff-no-marker", c.ipos(ci), "plain v is appended only when capture group 2 is empty or absent")
+				r.Check(mustPass(sfn, blk, plainEdges(edgesMatching(sb, softPats...))), "C10.exits.unhardened-iff-no-marker", pos, "plain v is produced only when capture group 2 is empty or absent")
 			}
 		}
 		if !ok {
-			r.Viol("C10.exits.hardened-value", c.ipos(ci), "appended value is not v or v|1<<31: %s", short(v.String(), 300))
+			r.Viol("C10.exits.hardened-value", pos, "component value is not v or v|1<<31: %s", short(v.String(), 300))
 			continue
 		}
-		pv, ok := ana.Match("ext#0(call<*>(load(iaddr("+matches+", 1))))", bd["$v"])
-		_ = pv
-		r.Check(ok, "C10.exits.digits-group", c.ipos(ci), "numeric value is parsed from capture group 1 of the component's match: %s", short(bd["$v"].String(), 200))
-		if call, isCall := bd["$v"].Arg(0).V.(*ssa.Call); isCall {
-			parseCall = call
+		_, ok = ana.Match(parseVal, bd["$v"])
+		r.Check(ok, "C10.exits.digits-group", pos, "numeric value is parsed from capture group 1 of the component's match: %s", short(bd["$v"].String(), 200))
+		if ok && bd["$v"].Is("ext") {
+			if call, isCall := bd["$v"].Arg(0).V.(*ssa.Call); isCall {
+				parseCall = call
+			}
 		}
-		blk := ci.Block()
-		g1 := plainEdges(edgesMatching(b, "bin<>=>(len("+matches+"), 2)", "bin<>>(len("+matches+"), 1)"))
-		g2 := plainEdges(edgesMatching(b, "bin<==>(load(iaddr("+matches+", 0)), "+elem+")", "bin<==>("+elem+", load(iaddr("+matches+", 0)))"))
-		g3 := plainEdges(edgesMatching(b, "bin<==>(ext#1(call<*>(load(iaddr("+matches+", 1)))), nil)"))
-		r.Check(mustPass(fn, blk, g1), "C10.exits.gate-matched", c.ipos(ci), "append only after len(matches)>=2 (a digit group matched)")
-		r.Check(mustPass(fn, blk, g2), "C10.regexp.whole-component", c.ipos(ci), "append only after matches[0]==component (the whole component matches)")
-		r.Check(mustPass(fn, blk, g3), "C10.exits.gate-parse-error", c.ipos(ci), "append only after the numeric parse returned no error")
+		g1 := plainEdges(edgesMatching(sb, matchedPats...))
+		g2 := plainEdges(edgesMatching(sb, wholePats...))
+		g3 := plainEdges(edgesMatching(sb, "bin<==>("+parseErr+", nil)"))
+		r.Check(mustPass(sfn, blk, g1), "C10.exits.gate-matched", pos, "component value only after a match was found (a digit group matched)")
+		r.Check(anchored && mustPass(sfn, blk, g1) || mustPass(sfn, blk, g2), "C10.regexp.whole-component", pos, "component value only after matches[0]==component, or with a pattern anchored at both ends (the whole component matches)")
+		r.Check(mustPass(sfn, blk, g3), "C10.exits.gate-parse-error", pos, "component value only after the numeric parse returned no error")
 		// hardened variant selected iff group 2 non-empty
 		if phi, isPhi := v.V.(*ssa.Phi); isPhi {
-			hardEdges := plainEdges(edgesMatching(b, hardPats...))
-			softEdges := plainEdges(edgesMatching(b, softPats...))
+			hardEdges := plainEdges(edgesMatching(sb, hardPats...))
+			softEdges := plainEdges(edgesMatching(sb, softPats...))
 			for i, ev := range phi.Edges {
 				pred := phi.Block().Preds[i]
 				edge := ana.Edge{From: pred, To: phi.Block()}
 				if _, isOr := ev.(*ssa.BinOp); isOr {
-					r.Check(edgeMustPass(fn, edge, hardEdges), "C10.exits.hardened-iff-marker", c.ipos(ci), "v|1<<31 is chosen only when capture group 2 is non-empty")
+					r.Check(edgeMustPass(sfn, edge, hardEdges), "C10.exits.hardened-iff-marker", pos, "v|1<<31 is chosen only when capture group 2 is non-empty")
 				} else {
-					r.Check(edgeMustPass(fn, edge, softEdges), "C10.exits.unhardened-iff-no-marker", c.ipos(ci), "plain v is chosen only when capture group 2 is empty or absent")
+					r.Check(edgeMustPass(sfn, edge, softEdges), "C10.exits.unhardened-iff-no-marker", pos, "plain v is chosen only when capture group 2 is empty or absent")
 				}
 			}
 		}
@@ -224,7 +319,7 @@ func runC10(c *Ctx) {
 				bits, okz := t.Arg(2).Int()
 				r.Check(okb && base == 10, "C10.base.decimal", c.ipos(ci), "%s base argument is %s; base 0 reads a leading 0 as octal and accepts 0x/0b/_ forms, the statement requires decimal", name, t.Arg(1))
 				r.Check(okz && bits == 31 && name == "strconv.ParseUint", "C10.base.bitsize31", c.ipos(ci), "%s bit size argument is %s (values must be below 2^31)", name, t.Arg(2))
-				if rf != fn {
+				if rf != fn && rf != key.fn {
 					r.Check(t.Arg(0).IsParam(0), "C10.base.digits-arg", c.ipos(ci), "the parsed text is the helper's argument: %s", t.Arg(0))
 					for _, e := range ana.Exits(rf) {
 						if e.Panic {
@@ -233,7 +328,8 @@ func runC10(c *Ctx) {
 						et := rb.Of(e.Results[1], e.Instr)
 						vt := rb.Of(e.Results[0], e.Instr)
 						if et.Is("nil") {
-							_, ok := ana.Match("conv<uint32>(ext#0(call<"+name+">(p0, _, _)))", vt)
+							// (a value below 2^31 is unchanged by & 0x7fffffff)
+							_, ok := ana.MatchAny(vt, "conv<uint32>(ext#0(call<"+name+">(p0, _, _)))", "conv<uint32>(bin<&>(ext#0(call<"+name+">(p0, _, _)), 2147483647))", "bin<&>(conv<uint32>(ext#0(call<"+name+">(p0, _, _))), 2147483647)")
 							r.Check(ok, "C10.base.helper-value", c.ipos(e.Instr), "helper returns the parsed number unchanged: %s", vt)
 						} else {
 							_, ok := ana.Match("ext#1(call<"+name+">(p0, _, _))", et)
@@ -257,19 +353,24 @@ func runC10(c *Ctx) {
 		r.OK("C10.base.callee-resolved", c.ipos(parseCall), "numeric parse helper resolved through the call graph: %s", ana.CalleeName(&parseCall.Call))
 	}
 
-	// ---- no-panic: constant indices into matches
+	// ---- no-panic: constant indices into matches (in the key routine)
 	nIdx := 0
-	for _, blk := range fn.Blocks {
+	for _, blk := range key.fn.Blocks {
 		for _, ins := range blk.Instrs {
 			ia, ok := ins.(*ssa.IndexAddr)
 			if !ok {
 				continue
 			}
-			t := b.Of(ia, ia)
-			if bd, ok := ana.Match("iaddr("+matches+", $k)", t); ok {
+			t := key.b.Of(ia, ia)
+			if bd, ok := ana.Match("iaddr("+mt+", $k)", t); ok {
 				k, isInt := bd["$k"].Int()
 				nIdx++
-				r.Check(isInt && constIndexGuarded(b, ia, t.Arg(0), k), "C10.no-panic.index-guarded", c.ipos(ia), "matches[%s] evaluated only under a len(matches) test that implies it exists", bd["$k"])
+				// a non-nil result has 1+groups entries, so "some match" guards every group index
+				guarded := isInt && constIndexGuarded(key.b, ia, t.Arg(0), k)
+				if !guarded && isInt && len(groupPats) == 2 && k <= 2 {
+					guarded = mustPass(key.fn, blk, plainEdges(edgesMatching(key.b, matchedPats...)))
+				}
+				r.Check(guarded, "C10.no-panic.index-guarded", c.ipos(ia), "matches[%s] evaluated only under a test that implies it exists (len test, or non-nil result of a pattern with two groups)", bd["$k"])
 			}
 		}
 	}
@@ -290,6 +391,15 @@ func runC10(c *Ctx) {
 			t := sb.Of(e.Results[0], e.Instr)
 			bd, ok := ana.Match("call<(*strings.Builder).String>(obj(alloc<strings.Builder>, call<(*strings.Builder).WriteByte>(self, $m), maybe(call<(*strings.Builder).WriteString>(self, call<fmt.Sprintf>($f, slice(obj(_, store(iaddr(self, 0), $val)), 0, none)))), maybe(call<(*strings.Builder).WriteByte>(self, $h))))", t)
 			if !ok {
+				// the separator byte and the decimal digits written separately: strconv.FormatUint(uint64(v), 10) / Itoa print what %d prints
+				bd2, ok2 := ana.Match("call<(*strings.Builder).String>(obj(alloc<strings.Builder>, call<(*strings.Builder).WriteByte>(self, $m), maybe(call<(*strings.Builder).WriteByte>(self, $s)), maybe(call<(*strings.Builder).WriteString>(self, alt(call<strconv.FormatUint>(conv<uint64>($val), 10), call<strconv.Itoa>(conv<int>($val))))), maybe(call<(*strings.Builder).WriteByte>(self, $h))))", t)
+				if sb2, isInt := bd2["$s"].Int(); ok2 && isInt {
+					lit := constant.MakeString(string(rune(sb2)) + "%d")
+					bd2["$f"] = &ana.Term{Op: "const", Name: lit.ExactString(), C: lit}
+					bd, ok = bd2, true
+				}
+			}
+			if !ok {
 				r.Undec("C10.print-parse-agree.shape", c.ipos(e.Instr), "printer is not m, then per index Sprintf(sep+verb, value) and an optional marker byte: %s", short(t.String(), 500))
 				continue
 			}
@@ -298,7 +408,7 @@ func runC10(c *Ctx) {
 			fs, _ := bd["$f"].Str()
 			r.Check(m == 'm', "C10.print-parse-agree.prefix", c.ipos(e.Instr), "printer starts with %q; parser accepts \"m\" alone and strips \"m/\"", string(rune(m)))
 			r.Check(fs == sep+"%d" && sep != "", "C10.print-parse-agree.verb-separator", c.ipos(e.Instr), "printer format %q = parser separator %q + decimal verb %%d (parser base must be 10, see C10.base)", fs, sep)
-			_, okv := ana.Match("bin<&^>(load(iaddr(p0, bin<+>(ind<+1>(-1), 1))), 2147483648)", bd["$val"])
+			_, okv := ana.MatchAny(bd["$val"], "bin<&^>(load(iaddr(p0, bin<+>(ind<+1>(-1), 1))), 2147483648)", "bin<&>(load(iaddr(p0, bin<+>(ind<+1>(-1), 1))), 2147483647)")
 			r.Check(okv, "C10.print-parse-agree.value", c.ipos(e.Instr), "printed number is idx &^ 1<<31: %s", bd["$val"])
 			if len(groupPats) == 2 {
 				q := quoteRe(string(rune(h)))
